@@ -2,6 +2,7 @@ package props
 
 import (
 	"go/token"
+	"go/types"
 	"strings"
 
 	"golang.org/x/tools/go/ssa"
@@ -276,6 +277,62 @@ func c19(c *an.Ctx) {
 						}
 					}
 				}
+			}
+		}
+	})
+
+	c.Check("R-POST", "parseSelectionSet turns every field, spread and inline fragment of the query into its own element (no spread is dropped before its directives are evaluated)", 3, func(o *an.O) {
+		fn := c.NeedFunc(gq, "parseSelectionSet")
+		// the loop over input.Selections
+		var hdr *ssa.BasicBlock
+		an.Instrs(fn, func(i ssa.Instruction) {
+			if ia, ok := i.(*ssa.IndexAddr); ok && an.IsRangeIndex(ia.Index) && strings.HasSuffix(an.Expr(ia.X), ".Selections") {
+				if h := an.LoopHeaderOf(i); h != nil {
+					hdr = h
+				}
+			}
+		})
+		an.Need(hdr != nil, "loop over input.Selections")
+		// appends to the two result lists
+		var appends []ssa.Instruction
+		an.Instrs(fn, func(i ssa.Instruction) {
+			call, ok := i.(*ssa.Call)
+			if !ok {
+				return
+			}
+			b, ok := call.Call.Value.(*ssa.Builtin)
+			if !ok || b.Name() != "append" || !isSingleElementSlice(call.Call.Args[1]) {
+				return
+			}
+			t := call.Call.Args[0].Type().String()
+			if strings.HasSuffix(t, "graphql.Selection") || strings.HasSuffix(t, "graphql.Fragment") {
+				appends = append(appends, i)
+			}
+		})
+		kinds := []string{"*ast.Field", "*ast.FragmentSpread", "*ast.InlineFragment"}
+		for _, k := range kinds {
+			// the block entered when the type switch matched kind k
+			var entry *ssa.BasicBlock
+			for _, b := range fn.Blocks {
+				if len(b.Preds) != 1 {
+					continue
+				}
+				for _, g := range an.GuardsOf(b) {
+					if ex, ok := g.Cond.(*ssa.Extract); ok && g.Polarity && ex.Index == 1 && g.If.Block() == b.Preds[0] {
+						if ta, ok := ex.Tuple.(*ssa.TypeAssert); ok && types.TypeString(ta.AssertedType, func(p *types.Package) string { return p.Name() }) == k {
+							entry = b
+						}
+					}
+				}
+			}
+			if entry == nil {
+				o.Fail(p.Pos(fn.Pos()), "parseSelectionSet has no case for %s", k)
+				continue
+			}
+			o.SitePos(p.InstrPos(entry.Instrs[0]))
+			r := an.Reach(fn, entry.Instrs[0], an.NewBlocker(appends...))
+			if r[hdr.Instrs[0]] {
+				o.Fail(p.InstrPos(entry.Instrs[0]), "a %s of the query can be skipped without producing an element (the loop continues without appending): e.g. a repeated spread of a fragment is dropped before its own @skip/@include is looked at, so an excluded first spread suppresses an included later one", strings.TrimPrefix(k, "*ast."))
 			}
 		}
 	})
